@@ -75,6 +75,8 @@ def plan(prop, tier):
                  sc([G, G, G, "clean", "save", "load"], N=3, D=3, P=2, S=(5000,), flags=["-realclean"], auto=2),
                  # a heavier fork of the same height after a Save, saved again and loaded
                  sc([G, G, "save", G, "save", "load"]),
+                 # the same maintenance operation twice in a row, with nothing new in between
+                 sc([G, G, G, "save", "save", "load", "load", G]), sc([G, G, G, "clean", "clean", "save", "clean", G], D=1, P=1),
                  # Load on the repository object in use (back to the stored state), then the same headers again
                  g(D=1, P=2, ops=maint_ops, n=num // 2, flags=["-liveload"]),
                  sc([G, G, "save", G, "load", G, G], flags=["-liveload"]),
@@ -120,6 +122,7 @@ def plan(prop, tier):
         gens += [sc([G, G, G, G, "clean"]), sc([G, G, G, "clean", G, "clean"], D=1, P=1), sc([G, G, "clean", G, G, "clean"], works=(1, 3), P=2),
                  sc([G, G, G, "clean", G, "clean"], D=2, P=2, works=(1,), ties=True),
                  sc(["legacy", G, G, "clean", G, "clean"], D=2, P=1),
+                 sc([G, G, G, "clean", "clean", G, "clean", "clean"], D=1, P=1),
                  sc([G, G, "clean", G, "clean"], N=3, D=3, P=2, S=(5000,), flags=["-realclean"], auto=2)]
     elif prop == "C11":
         exh = [("maint", 4, 1, 2, 1), ("mark", 3, 3, 2, 1)]
@@ -128,6 +131,8 @@ def plan(prop, tier):
                 g(D=6, P=6, ops=("submit", "save", "load", "mark"))]
         gens += [sc([G, G, G, G, "save", "load"]), sc([G, G, G, "save", "load", G, "save", "load"], D=1, P=1), sc([G, G, "clean", G, G, "save", "load"], works=(1, 3), P=2), sc([G, G, G, "mark", "save", "load", "submit"], lean=False),
                  sc([G, G, G, "clean", G, "save", "load", G], D=2, P=2, works=(1,), ties=True),
+                 # Save twice and Load twice with nothing in between; Load after more headers (they are gone, and arrive again)
+                 sc([G, G, G, "save", "save", "load", "load", G]), sc([G, G, "save", G, G, "load", G, G, "save", "load"], D=2, P=2),
                  # a store written before branches existed (version-0 files), or an empty store, is loaded first
                  dict(sc(["legacy", G, G, "clean", "save", "load", G], D=2, P=2), big=400),
                  sc(["legacy", G, "save", "load", G, "clean", G], D=4, P=1, S=(1, 7)),
